@@ -38,7 +38,7 @@ def import_dreye():
 
 class SolveEvent:
     __slots__ = ("seq", "nvars", "var_shapes", "param_sizes", "status", "value",
-                 "faulted", "kwargs")
+                 "faulted", "kwargs", "depth")
 
     def as_tuple(self):
         return (self.seq, self.var_shapes, self.param_sizes, self.status,
@@ -62,6 +62,7 @@ class SolveSeam:
         self.events = []
         self.fired = 0
         self.count = 0
+        self.depth = 0
 
     def __enter__(self):
         import cvxpy as cp
@@ -75,6 +76,7 @@ class SolveSeam:
             ev = SolveEvent()
             ev.seq = k
             ev.faulted = False
+            ev.depth = seam.depth      # >0: a solve issued from inside another solve (bisection)
             ev.status = None
             ev.value = None
             if seam.record:
@@ -91,7 +93,11 @@ class SolveSeam:
             if seam.cold:
                 kwargs = dict(kwargs)
                 kwargs["warm_start"] = False
-            out = seam._orig(problem, *args, **kwargs)
+            seam.depth += 1
+            try:
+                out = seam._orig(problem, *args, **kwargs)
+            finally:
+                seam.depth -= 1
             ev.status = problem.status
             ev.value = problem.value
             if seam.on_solve is not None:
